@@ -617,7 +617,8 @@ func filterCenter(in *Value, param *Value) (*Value, *Error) {
 }
 
 func filterDate(in *Value, param *Value) (*Value, *Error) {
-	t, isTime := in.Interface().(time.Time)
+	// (also a *time.Time: an optional field prints as the time and compares as one)
+	t, isTime := in.Time(), in.IsTime()
 	if !isTime {
 		return nil, &Error{
 			Sender:    "filter:date",
